@@ -27,7 +27,8 @@ fn register(txt: &str, loc: lsp::Location, node: &Node, symbols: &mut Symbols, d
         _ => match node.named_child(0).unwrap().kind() {
             "global_label" => &mut symbols.globals,
             "var_label" => &mut symbols.vars,
-            _ => panic!("register symbol hit an unexpected node")
+            // e.g. a local label where only a global one makes sense (`ENT :LOC`): nothing to register
+            _ => return 0
         }
     };
     if !map.contains_key(txt) {
@@ -350,7 +351,12 @@ pub fn visit_gather(curs: &TreeCursor, ctx: &mut Context, ws: &Workspace, symbol
             }
             register(&txt,loc,&node,symbols,None,ctx,fwd);
         }  else if child.unwrap().kind()=="local_label" {
-            if no_fwd && !symbols.child_defined(&txt,ctx.curr_scope().unwrap()) {
+            // a local label in front of any global label has no scope yet (a diagnostic elsewhere says so)
+            let defined = match ctx.curr_scope() {
+                Some(scope) => symbols.child_defined(&txt,scope),
+                None => false
+            };
+            if no_fwd && !defined {
                 fwd.push(LabelType::Local);
             }
             register_child(&txt,loc,&node,symbols,ctx,fwd);
